@@ -166,6 +166,15 @@ func factsProxy() {
 	emitStr("seriesLimitCond", "pkg/store/proxy.go ProxyStore.Series: the limit test of the response loop",
 		firstIfCond(body(fn(px, "ProxyStore", "Series")), "r.Limit"))
 
+	// ---- C05 with a TSDB selector: the shape of MatchLabelSets and the quoting in MatchersForLabelSets
+	ts := parse("pkg/store/tsdb_selector.go")
+	emitList("selMatchLabelSetsConds", "pkg/store/tsdb_selector.go TSDBSelector.MatchLabelSets: every if-condition, in source order",
+		ifConds(body(fn(ts, "TSDBSelector", "MatchLabelSets")), ""))
+	emitList("selValueInsert", "pkg/store/tsdb_selector.go MatchersForLabelSets: how a label value enters the alternatives",
+		stmtsContaining(body(fn(ts, "", "MatchersForLabelSets")), "labelNameValues[l.Name]["))
+	emitList("selUnionAppend", "pkg/store/proxy.go matchingStores: how the matched label sets of a store enter the union",
+		stmtsContaining(body(fn(px, "ProxyStore", "matchingStores")), "storeLabelSets = append"))
+
 	// ---- C06: where the partial-response strategy is consulted, and how a failing Recv is reported
 	seriesFn := body(fn(px, "ProxyStore", "Series"))
 	emitStr("proxyOpenErrContinueCond", "pkg/store/proxy.go ProxyStore.Series: when a failing Series() call of a store is only a warning",
